@@ -200,7 +200,116 @@ def mirror(small, axis):
 
 
 PAIR_KINDS = [f"extrude:{a}->{b}@{p}" for a, b, p in EXTRUSIONS] + \
-    ["permute:Grid2D", "permute:Grid3D", "mirror:Grid1D", "mirror:Grid2D", "mirror:Grid3D"]
+    ["permute:Grid2D", "permute:Grid3D", "mirror:Grid1D", "mirror:Grid2D", "mirror:Grid3D",
+     "shift:Grid1D", "shift:Grid2D", "shift:Grid3D"]
+
+
+def shift(rng, cls, nmax):
+    """Cartesian grid with a uniform periodic axis; the image has all data shifted cyclically along it"""
+    np = drive.np()
+    d = drive.dim(cls)
+    for _ in range(200):
+        small = solvedrive.gen_solve_config(rng, cls, nmax=max(nmax, 2), allow_periodic=False)
+        axis = rng.randrange(d)
+        f = [dec(q) for q in small["faces"][axis]]
+        n = len(f) - 1
+        if n >= 2:
+            break
+    h = rng.choice([Fr(1), Fr(2), Fr(1, 2)])
+    small["faces"][axis] = [enc(k * h) for k in range(n + 1)]        # uniform along the periodic axis
+    lo, hi = SIDES[axis]
+    small["bc"][lo]["periodic"] = small["bc"][hi]["periodic"] = True
+    by = rng.randrange(1, n)
+
+    def wrap_full(a):          # ghost layers of the periodic axis = periodic images
+        a = a.copy()
+        idx_lo = [slice(None)] * a.ndim; idx_hi = [slice(None)] * a.ndim
+        src_lo = [slice(None)] * a.ndim; src_hi = [slice(None)] * a.ndim
+        idx_lo[axis] = 0; src_lo[axis] = n
+        idx_hi[axis] = n + 1; src_hi[axis] = 1
+        a[tuple(idx_lo)] = a[tuple(src_lo)]
+        a[tuple(idx_hi)] = a[tuple(src_hi)]
+        return a
+
+    def periodic_face(a):      # one physical face = one coefficient
+        a = a.copy()
+        idx = [slice(None)] * a.ndim; src = [slice(None)] * a.ndim
+        idx[axis] = n; src[axis] = 0
+        a[tuple(idx)] = a[tuple(src)]
+        return a
+    for key in ("phi", "xstar", "xstar2"):
+        small[key] = unarr(wrap_full(arr(small[key])))
+    for key in ("D", "u", "uup"):
+        small[key][axis] = unarr(periodic_face(arr(small[key][axis])))
+    # the boundary data c of the other sides were derived from the un-wrapped targets: derive them again
+    fix_c(small)
+    big = copy.deepcopy(small)
+
+    def roll_int(a):
+        return np.roll(a, by, axis=axis)
+
+    def roll_full(a):
+        inner = [slice(None)] * a.ndim
+        inner[axis] = slice(1, n + 1)
+        b = a.copy()
+        b[tuple(inner)] = np.roll(a[tuple(inner)], by, axis=axis)
+        return wrap_full(b)
+
+    def roll_face(a):
+        first = [slice(None)] * a.ndim
+        first[axis] = slice(0, n)
+        b = a.copy()
+        b[tuple(first)] = np.roll(a[tuple(first)], by, axis=axis)
+        return periodic_face(b)
+    for key in ("beta", "gamma", "alpha", "old", "old2"):
+        big[key] = unarr(roll_int(arr(small[key])))
+    for key in ("phi", "xstar", "xstar2"):
+        big[key] = unarr(roll_full(arr(small[key])))
+    for key in ("D", "u", "uup"):
+        comps = []
+        for a in range(d):
+            a0 = arr(small[key][a])
+            comps.append(unarr(roll_face(a0) if a == axis else np.roll(a0, by, axis=axis)))
+        big[key] = comps
+    for a in range(d):
+        if a == axis:
+            continue
+        trans = [b for b in range(d) if b != a]
+        for s_ in SIDES[a]:
+            for ck in ("a", "b", "c", "c2"):
+                a0 = arr(small["bc"][s_][ck])
+                if a0.ndim == len(trans):
+                    big["bc"][s_][ck] = unarr(np.roll(a0, by, axis=trans.index(axis)))
+    return small, big, {"kind": "shift", "axis": axis + 1, "by": by}
+
+
+def fix_c(cfg):
+    """re-derive the boundary data c, c2 of a solver configuration from its (modified) targets"""
+    import itertools as it
+    dims = opsdrive.dims_of(cfg)
+    d = len(dims)
+    for key, ckey in (("xstar", "c"), ("xstar2", "c2")):
+        xs = arr(cfg[key])
+        for a in range(d):
+            faces = [dec(q) for q in cfg["faces"][a]]
+            for s_, high in ((SIDES[a][0], False), (SIDES[a][1], True)):
+                dend = (faces[-1] - faces[-2]) if high else (faces[1] - faces[0])
+                av = arr(cfg["bc"][s_]["a"]); bv = arr(cfg["bc"][s_]["b"])
+                shp = trans_shape(dims, a)
+                others = [b for b in range(d) if b != a]
+                out = drive.np().empty(shp, dtype=object)
+                for ix in it.product(*[range(n) for n in shp]):
+                    P = [1] * d
+                    P[a] = dims[a] if high else 1
+                    for k, b in enumerate(others):
+                        P[b] = ix[k] + 1
+                    g = list(P); g[a] = dims[a] + 1 if high else 0
+                    aa = av.reshape(shp)[ix]; bb = bv.reshape(shp)[ix]
+                    q = aa / (opsdrive.gscale(cfg, a, P) * dend)
+                    hi_v = xs[tuple(g)] if high else xs[tuple(P)]
+                    lo_v = xs[tuple(P)] if high else xs[tuple(g)]
+                    out[ix] = (bb / 2 + q) * hi_v + (bb / 2 - q) * lo_v
+                cfg["bc"][s_][ckey] = unarr(out)
 
 
 def gen(rng, kind, nmax=2, **kw):
@@ -216,6 +325,8 @@ def gen(rng, kind, nmax=2, **kw):
         d = drive.dim(rest)
         perm = rng.choice([p for p in itertools.permutations(range(d)) if list(p) != list(range(d))])
         big, tr = permute(small, list(perm))
+    elif mode == "shift":
+        small, big, tr = shift(rng, rest, nmax)
     else:
         small = solvedrive.gen_solve_config(rng, rest, nmax=nmax, allow_periodic=True)
         big, tr = mirror(small, rng.randrange(drive.dim(rest)))
@@ -245,6 +356,8 @@ def observe(cfg, want):
         gam_big = np.repeat(np.expand_dims(gam_small, tr["pos"] - 1), tr["n"], axis=tr["pos"] - 1)
     elif tr["kind"] == "permute":
         gam_big = np.transpose(gam_small, [p - 1 for p in tr["perm"]])
+    elif tr["kind"] == "shift":
+        gam_big = np.roll(gam_small, tr["by"], axis=tr["axis"] - 1)
     else:
         gam_big = np.flip(gam_small, axis=tr["axis"] - 1)
     with warnings.catch_warnings(), np.errstate(all="ignore"), contextlib.redirect_stdout(io.StringIO()):
